@@ -5,6 +5,7 @@
 //   dump F            per-instance dump: "@@I id state name\n<STEPwrite>@@E\n"
 //   write F | writews F
 //   fresh             discard session (new Registry/InstMgr/STEPfile)
+//   clear | purge     empty the instance manager of the SAME session (ClearInstances / DeleteInstances): in-place reload
 // Log lines go to stdout via printf (the library's cout chatter is discarded).
 extern void SchemaInit( class Registry & );
 #include "cleditor/STEPfile.h"
@@ -38,6 +39,8 @@ int main( int argc, char ** argv ) {
         sink.str( "" );
         if( op == "strict" ) { strict = true; continue; }
         if( op == "fresh" ) { delete s; s = 0; continue; }
+        if( op == "clear" && s ) { s->im->ClearInstances(); printf( "OP clear n=%d max=%d\n", s->im->InstanceCount(), s->im->MaxFileId() ); continue; }
+        if( op == "purge" && s ) { s->im->DeleteInstances(); printf( "OP purge n=%d max=%d\n", s->im->InstanceCount(), s->im->MaxFileId() ); continue; }
         if( !s ) s = new Session( strict );
         if( op == "read" || op == "readws" || op == "append" || op == "appendws" ) {
             const char * f = argv[++i];
